@@ -703,6 +703,16 @@ pub fn run(ctx: &Ctx) -> i32 {
             col.sample(json!({"statement": text_of(st), "lines": "all sequences up to the bound over the 6-line alphabet", "alphabet": lines().iter().map(|l| l.0.clone()).collect::<Vec<_>>()}));
         }
     });
+    // aggregate statements through every driver
+    {
+        let al = lines();
+        let input: Vec<String> = [0usize, 1, 3, 2, 4, 5, 1].iter().map(|i| al[*i].0.clone()).collect();
+        let mut cases: Vec<(String, String, Vec<String>, bool)> = Vec::new();
+        for (i, st) in stmts.iter().enumerate().filter(|(_, s)| s.items.len() <= 2 && s.filter == 0 && (s.having == 0 || s.items.len() == 1)).step_by(if ctx.tier == Tier::Thorough { 7 } else { 41 }) {
+            cases.push((DEF.to_string(), text_of(st), input.clone(), i % 3 == 0));
+        }
+        crate::drivers::run_layer(&col, &cases, &|_| "aggregate".to_string());
+    }
     col.layer("statements x line sequences", done * nseq, complete, json!({"statements": nst, "line_sequences": nseq, "max_len": maxlen, "items": items().iter().map(|i| i.text).collect::<Vec<_>>()}));
     finish(
         ctx,
